@@ -539,6 +539,10 @@ fn part_d(chooser: Chooser, nat: usize, votes: usize, conf: usize, faults: bool,
             }
             let _ = truthful_majority;
         }
+        // what the public API reports (Info, to_bootstrap) must be the node's state
+        for (k, d) in w.api_view_mismatches(a) {
+            problems.push((k, format!("{ctx}: {d}")));
+        }
     }
     // ---- on the wire: read-only flags must follow the mode the node is in. The switch is
     // observed by sampling every 10 s, so messages sent more than 10 s before the first
